@@ -76,3 +76,9 @@ Print Assumptions C10_start_default.
 Print Assumptions C10_start_parsed.
 Print Assumptions C10_error_unchanged.
 Print Assumptions C10_getters_pure.
+
+(* the mutators and getters of the history machine are all there are: no public function or trait impl has been added to, removed from or renamed in the four library crates since the model was written (proofs/ApiSurfaceProofs.v) *)
+From UL Require ApiSurface ApiSurfaceProofs.
+Theorem C10_mutators_are_the_modelled_ones : ApiSurface.api_surface = ApiSurfaceProofs.modelled_api.
+Proof. exact ApiSurfaceProofs.api_surface_is_the_modelled_one. Qed.
+Print Assumptions C10_mutators_are_the_modelled_ones.
